@@ -70,12 +70,14 @@ EXPECT = {
     'SWP1': [('FixtureLint::Order', 'sphi1,sphi2')],
     'SC1': [('FixtureLint::Radius', 'calp,salp')],
     'POS1': [('FixtureLint::Trim', 'end')],
+    'DZ1': [('FixtureSphere::Jn', '/_e2')],
     'CP1': [('FixtureLint::Pad', 'easting/northing')],
     'X7r': [('FixtureShared::HalfFilled', 'alpha_')],
     'K7': [('FixtureRaster::probe', 'B1 filepos column')],
     'W1': [('FixtureShared::HalfWritten', 'northp')],
     'X6': [('FixtureShared::Spin', 'loop@')],
     'X7': [('FixtureShared::Pick', 'alphabet')],
+    'IDX1': [('FixtureShared::Pieces', 'piece[k]')],
 }
 
 _cache = {}
@@ -174,6 +176,9 @@ def run_controls(rules):
         elif r == 'POS1':
             from .rules import lint
             res = lint.rule_POS1(fx, None)[0]
+        elif r == 'DZ1':
+            from .rules import lint
+            res = lint.rule_DZ1(fx, None)[0]
         elif r == 'CP1':
             from .rules import lint
             res = lint.rule_CP1(fx, None)[0]
@@ -195,6 +200,9 @@ def run_controls(rules):
         elif r == 'X7':
             from .rules import bounds
             res = bounds.rule_X7(fx, files=('controls.cpp',))[0]
+        elif r == 'IDX1':
+            from .rules import bounds
+            res = bounds.rule_IDX1(fx, files=('controls.cpp',))[0]
         else:
             continue
         got = [(f.fn, f.symbol) for f in res.findings]
